@@ -47,7 +47,7 @@ TEnd == /\ Consume("End") /\ pc = "idle"
         /\ sendq = <<>> /\ upq = <<>>
         /\ UNCHANGED vars /\ Done
 TSilent == /\ l <= Len(TraceLog) /\ UNCHANGED l
-           /\ (BufferFull \/ InputOver \/ DropStale \/ \E b \in BOOLEAN : OutputOver(b))
+           /\ (BufferFull \/ InputOver \/ DropStale \/ (\E b \in BOOLEAN : OutputOver(b)) \/ (\E r \in Reqs : ExpireUnwritten(r)) \/ ExpirePartial)
 TNext == TNew \/ TAdd \/ TSrv \/ TPeer \/ TStart \/ TPoll \/ TRecv \/ TSend \/ TRet \/ TGot \/ TStates \/ TEnd \/ TSilent
 TSpec == TInit /\ [][TNext]_<<vars, l>>
 =============================================================================
